@@ -217,7 +217,7 @@ def check_equiv(ctx: Ctx, mode: dict, program_text: Optional[str] = None, label:
             continue
         diff = compare(ctx, mode, src, res)
         if diff:
-            out.append({"kind": "not-equivalent", "instance": inst, "diff": diff, "label": label, "mode": mode})
+            out.append({"kind": "not-equivalent", "instance": inst, "diff": diff, "label": label, "mode": mode, "result_undefined": bool(res.undefined)})
     return out
 
 
